@@ -200,6 +200,12 @@ def check_cfg(F, R, cfg):
     if comp:
         fv = view(F, comp)
         good, msg = compress_shape(fv, X, Y, Z)
+        if not good:
+            epa_ = F.adts.get("curve25519_dalek::edwards::EdwardsPoint")
+            if epa_:
+                codec_results(F, epa_["variants"][0]["fields"][X]["ty"])
+        if not good and FORMULA_OK.get((id(F), "EdwardsPoint::compress")):
+            good, msg = True, "structural form not recognised; decided by C03.formula: the encoder outputs y = Y/Z with the sign of x = X/Z"
         (R.ok if good else R.viol)("C03.encode", I("EdwardsPoint::compress"), msg, *(() if good else (fv.loc(),)))
 
     # ------------------------------------------------------------------ equality shape
@@ -355,12 +361,25 @@ def check_cfg(F, R, cfg):
         (R.ok if good else R.viol)("C03.group_ops", I("EdwardsPoint::double"), "as_projective().double().as_extended()" if good else "double does not delegate to the projective doubling", *(() if good else (fv.loc(),)))
 
 
+FORMULA_OK = {}
+_CODEC = {}
+
+
+def codec_results(F, fe_ty):
+    if id(F) not in _CODEC:
+        import formula_rules as FR
+        _CODEC[id(F)] = list(FR.codec(F, fe_ty))
+        for inst, f, ok, msg in _CODEC[id(F)]:
+            FORMULA_OK[(id(F), inst)] = bool(ok and f)
+    return _CODEC[id(F)]
+
+
 def formulas(F, R, I, fe_ty):
     """FORMULA domain (lib/eng_formula.py, lib/formula_rules.py): the serial curve-model formulas against the twisted Edwards addition law"""
     import formula_rules as FR
     n = 0
     import itertools
-    for inst, f, ok, msg in itertools.chain(FR.run_cases(F, fe_ty), FR.codec(F, fe_ty)):
+    for inst, f, ok, msg in itertools.chain(FR.run_cases(F, fe_ty), codec_results(F, fe_ty)):
         n += 1 if f else 0
         if ok:
             R.ok("C03.formula", I(inst), msg)
